@@ -925,7 +925,16 @@ func findRefreshFixpoint(p *Prog) (*ast.FuncDecl, *ast.ForStmt) {
 				if !ok {
 					return false
 				}
-				id, ok := ast.Unparen(se.X).(*ast.Ident)
+				// the receiver itself or a component of it (w.edges.closure(...))
+				base := ast.Unparen(se.X)
+				for {
+					inner, ok := base.(*ast.SelectorExpr)
+					if !ok {
+						break
+					}
+					base = ast.Unparen(inner.X)
+				}
+				id, ok := base.(*ast.Ident)
 				return ok && recv != nil && info.Uses[id] == recv
 			}
 			ast.Inspect(fd.Body, func(x ast.Node) bool {
@@ -973,7 +982,35 @@ func findRefreshFixpoint(p *Prog) (*ast.FuncDecl, *ast.ForStmt) {
 // elementwiseListGuard: cond is `!eq(a, b)` where eq is slices.Equal / reflect.DeepEqual or a module
 // function over two slices whose body compares a[i] with b[i].
 func elementwiseListGuard(p *Prog, info *types.Info, cond ast.Expr) bool {
+	return elementwiseListGuardDepth(p, info, cond, 0)
+}
+
+func elementwiseListGuardDepth(p *Prog, info *types.Info, cond ast.Expr, depth int) bool {
 	cond = resolveSingleDef(p, info, cond)
+	// the verdict of a helper (`changed := w.reindexFileLocked(...)`): every value it returns is such a comparison
+	if call, ok := ast.Unparen(cond).(*ast.CallExpr); ok && depth < 2 {
+		if fn, ok := calleeOf(info, call).(*types.Func); ok {
+			if decl := p.declOf[fn]; decl != nil && decl.Body != nil && decl.Type.Results != nil && len(decl.Type.Results.List) == 1 {
+				dinfo := p.InfoFor(decl)
+				n, all := 0, true
+				ast.Inspect(decl.Body, func(x ast.Node) bool {
+					if _, isLit := x.(*ast.FuncLit); isLit {
+						return false
+					}
+					if r, ok := x.(*ast.ReturnStmt); ok && len(r.Results) == 1 {
+						n++
+						if !elementwiseListGuardDepth(p, dinfo, r.Results[0], depth+1) {
+							all = false
+						}
+					}
+					return true
+				})
+				if n > 0 && all {
+					return true
+				}
+			}
+		}
+	}
 	u, ok := ast.Unparen(cond).(*ast.UnaryExpr)
 	if !ok || u.Op != token.NOT {
 		return false
